@@ -82,7 +82,7 @@ def unhex : List Char → List Char
 
 def textModel (fmt : String) (text : List Char) : Option (Option Result) :=
   match fmt with
-  | "csep-csv" => some (ReaderText.csepFile text)
+  | "csep-csv" => some (some (ReaderText.csepFileQ text))
   | "zmap" => some (ReaderText.zmapFile text)
   | "jma-csv" => some (ReaderText.jmaFile text)
   | "ingv_horus" => some (ReaderText.horusFile text)
@@ -90,6 +90,9 @@ def textModel (fmt : String) (text : List Char) : Option (Option Result) :=
   | _ => none
 
 def handle : List String → Option String
+  -- c19_text_noquote: the older line-splitting model of csep_ascii (no quoting; `outside` on a quote character)
+  | ["c19_text_noquote", hex] => some (match ReaderText.csepFile (unhex hex.toList) with
+      | some r => showResult r | none => "outside")
   | ["c19_text", fmt, hex] => some (match textModel fmt (unhex hex.toList) with
       | some (some r) => showResult r | some none => "outside" | none => "bad-op")
   | ["c19_text", fmt] => some (match textModel fmt [] with
